@@ -15,9 +15,9 @@ GROUPS = {
         crate="zksync_consensus_roles",
         splice=[("libs/roles/src/validator/messages/v2/consensus.rs", "kani/phase.rs")],
         stubbing=True,
-        harnesses=[dict(name="phase_roundtrip_prepare", kind="complete", timeout=600, quick=True),
-                   dict(name="phase_roundtrip_commit", kind="complete", timeout=600, quick=True),
-                   dict(name="phase_roundtrip_timeout", kind="complete", timeout=600, quick=True),
+        harnesses=[dict(name="phase_roundtrip_prepare", kind="complete", timeout=600),
+                   dict(name="phase_roundtrip_commit", kind="complete", timeout=600),
+                   dict(name="phase_roundtrip_timeout", kind="complete", timeout=600),
                    dict(name="view_roundtrip", kind="complete", timeout=1800),
                    dict(name="replica_commit_roundtrip", kind="complete", timeout=1800)],
     ),
